@@ -8,6 +8,7 @@ pub fn run(ctx: &Ctx) {
     ctx.set_exhaustive(false);
     let n = ctx.tier.pick(400_000u32, 6_000_000u32);
     run_forms_n(ctx, FormSet::Addressing, n, "Addressing");
+    crate::l3fam::run(ctx, crate::l3fam::Fam::Set(FormSet::Addressing), ctx.tier.pick(320usize, 6000usize));
     if ctx.tier == Tier::Thorough {
         crate::fuzzrun::exec_campaign(ctx, &["mov", "lea", "xchg", "add", "sub", "xor", "or", "not"], &[]);
     }
